@@ -731,12 +731,17 @@ func runC17H2(r *simcore.Run, sc *c17Scenario, re *regexp.Regexp) {
 	defer e.finish()
 	var mu sync.Mutex
 	perConn := map[string]int{}
+	overlap := false
 	if sc.Adopt {
 		e.d.Sim.Activate("gzip")
 		r.Probe("h2_tasked")
 		e.d.Invariant = func() {
-			if e.d.Sim.InFunc("gzip", "") >= 1 {
+			if n := e.d.Sim.InFunc("gzip", ""); n >= 1 {
 				r.State(strings.Join(e.d.Sim.TaskStates(), "|"))
+				if n >= 2 && !overlap {
+					overlap = true
+					r.Probe("h2_two_handlers_inside_gzip_code")
+				}
 			}
 		}
 	}
